@@ -11,7 +11,7 @@ use chumsky::error::EmptyErr;
 
 pub const ID: &str = "C01";
 
-pub const RULE: &str = "cases = (grammar, input): (a) bounded-exhaustive tier: every tree of <= 3 combinator nodes over 5 primitives x every string over {a,b,c} up to length L (L=4 quick, 6 thorough); (b) random tier: grammars decoded from proptest choice tapes (C01 class: all primitives incl. select/custom/end/empty, then/ignore_then/then_ignore/group tuple+array, or/choice tuple+Vec+array, or_not, not, and_is, rewind, delimited_by, padded_by, map/to/ignored/unwrapped, filter/try_map/try_map_with; depth <= 5, <= 25 nodes, 2..4 symbols of {a b c , ( ) é → 𝄞}) with 60% derived sentences (+0..2 edits) and 40% random strings, on &str and &[char]. Each case runs parse+check with Rich and EmptyErr, the plain and the observed (every node wrapped in map_with(span)) build, and g.then(rest). NON-TRIVIAL = the reference abandoned or rewound at least one attempt (alternative, optional, lookahead, and_is) after it had consumed input, or a filter/try_map rejected; distinct = distinct (sub-check, grammar, input).";
+pub const RULE: &str = "cases = (grammar, input): (a) bounded-exhaustive tier: every tree of <= 3 combinator nodes over 5 primitives, plus every single item source and every PAIR of item sources joined by then and consumed by one collect / count (or_not() / into_iter() over every tree of <= 1 combinator node: the IterParser implementations of or_not and then), x every string over {a,b,c} up to length L (L=4 quick, 6 thorough); (b) random tier: grammars decoded from proptest choice tapes (C01 class: all primitives incl. select/custom/end/empty, then/ignore_then/then_ignore/group tuple+array, or/choice tuple+Vec+array, or_not, not, and_is, rewind, delimited_by, padded_by, map/to/ignored/unwrapped, filter/try_map/try_map_with; depth <= 5, <= 25 nodes, 2..4 symbols of {a b c , ( ) é → 𝄞}) (a fifth of the grammars also contain or_not / then / into_iter used as item sources under one collect / count) with 60% derived sentences (+0..2 edits) and 40% random strings, on &str and &[char]. Each case runs parse+check with Rich and EmptyErr, the plain and the observed (every node wrapped in map_with(span)) build, and g.then(rest). NON-TRIVIAL = the reference abandoned or rewound at least one attempt (alternative, optional, lookahead, and_is) after it had consumed input, or a filter/try_map rejected; distinct = distinct (sub-check, grammar, input).";
 
 pub const ASSUMPTIONS: &[&str] = &[
     "the reference PEG evaluator (harness/src/reference.rs) is the oracle; it was written from the PEG definitions, not from chumsky's code",
@@ -42,11 +42,35 @@ fn check_inner(sub: &str, g: &G, toks: &[char], l: &mut Local) -> CaseRes {
     Ok(())
 }
 
+/// or_not / then / into_iter used as item sources and consumed by one collect / count: every pair of sources over
+/// every tree of <= 1 combinator node
+fn small_item_sources() -> Vec<G> {
+    let t1: Vec<G> = small_grammars(false).into_iter().filter(|g| g.children().len() <= 1 && g.children().iter().all(|c| c.children().is_empty())).collect();
+    let mut out = vec![];
+    let src = |k: usize, g: &G| if k == 0 { G::OrNot(b(g.clone())) } else { G::IntoIter(b(g.clone()), 0) };
+    for x in &t1 {
+        for kx in 0..2 {
+            out.push(G::IterThen(vec![src(kx, x)], 0));
+            for y in &t1 {
+                for ky in 0..2 {
+                    out.push(G::IterThen(vec![src(kx, x), src(ky, y)], ((kx + ky) % 2) as u8));
+                }
+            }
+        }
+    }
+    out.retain(wf);
+    out
+}
+
 pub fn decode(tape: &[u32]) -> (G, Vec<char>, &'static str) {
     let mut t = Tape::new(tape);
     let sub = if t.chance(1, 4) { "slice" } else { "str" };
     let (g, alpha) = {
-        let mut gg = GGen::new(&mut t, GenCfg::c01());
+        // a fifth of the cases: or_not / then (and into_iter) used as ITEM SOURCES -- `a.or_not().then(b.or_not()).collect()`:
+        // the IterParser implementations of the same combinators (no repetition node: that is C02's class)
+        let mut cfg = GenCfg::c01();
+        cfg.iter_then = t.chance(1, 5);
+        let mut gg = GGen::new(&mut t, cfg);
         let d = 1 + gg.t.pick(5) as u32;
         let g = gg.gen(d, false);
         (g, gg.alpha.clone())
@@ -59,7 +83,8 @@ pub fn run(tier: Tier, seed: u64) -> i32 {
     let ctx = Ctx::new(ID, tier, seed);
     ctx.replay_corpus(&check_case);
     // bounded-exhaustive tier
-    let gs = small_grammars(false);
+    let mut gs = small_grammars(false);
+    gs.extend(small_item_sources());
     let strings = all_strings(&['a', 'b', 'c'], ctx.pick(4, 6));
     ctx.with_local(|l| {
         l.add("exhaustive_grammars", gs.len() as u64);
